@@ -365,6 +365,7 @@ def run_case(case):
 
     run_guarded(res, lambda: run.run(body))
     stats["decisions"] = run.decisions
+    dig.add_events(run.events)
     nontrivial = P["out_changes"] > 0 and any(stats["faults"].values())
     return finish(res, dig, stats, nontrivial)
 
